@@ -24,10 +24,13 @@ if mods:
         'LbzVerif.Props.C02.numSelectors_le',
         'LbzVerif.Props.C02.dummyTable_complete',
         'LbzVerif.Props.C02.treePad_in_range',
+        'LbzVerif.Props.C02.Inspect.inspect_compress',
+        'LbzVerif.Props.C02.Inspect.inspect_compress_gen',
+        'LbzVerif.Props.C02.Inspect.inspect_compress_aligned',
     ])
 sys.path.insert(0, os.path.dirname(os.path.abspath(__file__)))
 import inproc  # noqa: E402
-inproc.run_libs(ck, ['w16_transmit', 'w11_prefix'])
+inproc.run_libs(ck, ['w16_transmit', 'w11_prefix', 'w23_roundtrip'])
 exe = ck.build_lbzip2(asan=False)
 evals = 0
 seen = set()
